@@ -43,6 +43,8 @@ func runC09(c *Ctx) {
 	c.Rule("C09.O10", "E4", "ReadFrom hands raw reader bytes to the connection (Sendfile, io.Copy to the conn) only on the edge where the response is not chunked and tested its declared Content-Length; it copies from the reader it was given (a LimitedReader's bound is kept)", 3)
 	c.Rule("C09.O11", "nil-flow", "Response.buffer / Response.bodyBuffer are dereferenced only behind a non-nil test of the same pointer or a dominating assignment from the pool in the same function, with no clearing store in between", 15)
 	c09HeadAndRaw(c)
+	c.Rule("C09.O13", "E5", "who may write the response's pending buffers (Response.buffer, Response.bodyBuffer): Write, writeChunk, eoncodeHead, Flush, flush, ReadFrom and the release path; every other method (WriteString, ...) goes through Write and inherits its guards (empty input, framing decision, accounting)", 20)
+	c09BufferWriters(c)
 	c.Rule("C09.O12", "E4,E6", "WriteHeader keeps a Content-Length header only when it parsed without error to a value >= 0: every path from the parse that does not delete the field carries both outcomes", 1)
 	c09KeepsValidLength(c)
 	c.Rule("C09.O7", "E2-ext", "a buffer from Malloc(n), n != 0, is truncated or filled before it is the destination of Append/AppendString", 20)
@@ -240,6 +242,32 @@ func runC09(c *Ctx) {
 				bad = "the fallback to chunked framing does not require the absence of Content-Length"
 			} else if !not[204] || !not[304] {
 				bad = "the fallback to chunked framing is not excluded for 204 / 304 responses"
+			} else {
+				// nothing else restricts the fallback: the facts that hold at the store but not
+				// yet at the version test are exactly the four above
+				var protoCall ssa.Instruction
+				for _, cs := range c.P.Calls(cc, func(name string, _ ir.CallSite) bool { return strings.HasSuffix(name, ".ProtoAtLeast") }) {
+					protoCall = cs.In
+				}
+				if protoCall != nil {
+					before := map[string]bool{}
+					for _, ft := range fi.Facts(protoCall) {
+						before[fmt.Sprintf("%p/%v", ft.If, ft.Truth)] = true
+					}
+					extra := 0
+					what := ""
+					for _, ft := range fi.Facts(st) {
+						if !before[fmt.Sprintf("%p/%v", ft.If, ft.Truth)] {
+							extra++
+							if d := c.P.Desc(ft.Cond); !strings.Contains(d, "ProtoAtLeast") && !strings.Contains(d, "Content-Length") && !strings.Contains(d, "statusCode") {
+								what = d
+							}
+						}
+					}
+					if extra > 4 || what != "" {
+						bad = "the fallback to chunked framing is restricted by a further condition (" + what + "): an HTTP/1.1 response without Content-Length that fails it is sent with identity framing whose length is measured when the head is first encoded, so a Flush in the middle of the body announces too few bytes"
+					}
+				}
 			}
 		}
 		c.Cond(bad == "", "C09.O4", fnKey(c.P, cc, "fallback conditions"), c.FnPos(cc), "HTTP/1.1, no Content-Length, status not 204/304", bad)
@@ -1043,4 +1071,26 @@ func c09KeepsValidLength(c *Ctx) {
 		}
 	}
 	c.Cond(bad == "", "C09.O12", key, c.Pos(parse), fmt.Sprintf("%d keeping path(s), each with err == nil and value >= 0", len(paths)), bad)
+}
+
+// c09BufferWriters: O13.
+func c09BufferWriters(c *Ctx) {
+	allowed := map[string]bool{
+		"(*nbhttp.Response).Write": true, "(*nbhttp.Response).writeChunk": true, "(*nbhttp.Response).eoncodeHead": true,
+		"(*nbhttp.Response).Flush": true, "(*nbhttp.Response).flush": true, "(*nbhttp.Response).ReadFrom": true,
+		"nbhttp.releaseResponse": true, "nbhttp.NewResponse": true,
+	}
+	for _, f := range c.pkgFuncs("nbhttp") {
+		name := c.P.FuncName(ir.Outermost(f))
+		for _, fld := range []string{"nbhttp.Response.buffer", "nbhttp.Response.bodyBuffer"} {
+			for i, st := range c.P.StoresTo(f, fld) {
+				if _, fresh := ir.Root(st.Addr.(*ssa.FieldAddr).X).(*ssa.Alloc); fresh {
+					continue
+				}
+				key := fmt.Sprintf("%s: store %s#%d", name, fld, i+1)
+				c.Cond(allowed[name], "C09.O13", key, c.Pos(st), "writer of the frozen set",
+					name+" writes "+fld+" at "+c.Pos(st)+" itself instead of going through Write: it emits body bytes without Write's guards (an empty input would be encoded as the terminating chunk, the framing decision and the Content-Length accounting are skipped)")
+			}
+		}
+	}
 }
